@@ -68,7 +68,10 @@ def _contract(cid, target, params, is_identify, descr):
         cid, target, params=params, globals=GLOBALS,
         raises={} if is_identify else {"ValueError": None, "TypeError": None},
         ensures=[("identify answers a bool", "result is True or result is False")] if is_identify and "to_unicode" not in cid else [],
-        max_paths=1500, max_depth=8, canary=False, time_budget=45, descr=descr,
+        max_paths=1500, max_depth=8, canary=False, time_budget=40, prune_timeout_ms=100, descr=descr,
+        # the bytes variants of needs_update differ from the str ones only by the initial ascii decoding,
+        # which from_string[bytes] already covers: thorough tier only
+        tier="thorough" if cid.endswith("needs_update[bytes]") else "quick",
     )
 
 
@@ -120,10 +123,31 @@ for _f, names in MODULE_FUNCS.items():
                     params = {"source": Str(), "handler": Obj(fields={"name": "handler"})}
                 CONTRACTS.append(_contract(f"{node.name}[{_kind}]", f"{_f}::{node.name}", params, node.name == "to_unicode_for_identify", f"arbitrary {_kind} input"))
 
+# ---- an altered salt / rounds field must not be silently repaired for a full hash -----------------------------
+def _capture(name):
+    def call(it, args, kwargs):
+        it.run.ghost[name] = kwargs.get("relaxed", args[1] if len(args) > 1 else False)
+        return args[0]
+
+    return SStub(call, name)
+
+
+for _m, _helper in (("_parse_salt", "_norm_salt"), ("_parse_rounds", "_norm_rounds")):
+    CONTRACTS.append(Contract(
+        f"_SHA2_Common.{_m}", f"passlib/handlers/sha2_crypt.py::_SHA2_Common.{_m}",
+        params={"self": Obj(fields={"checksum": Union(NoneT(), Str()), _helper: _capture(_helper), "use_defaults": __import__("pyvc.contract", fromlist=["Bool"]).Bool()}),
+                ("salt" if _m == "_parse_salt" else "rounds"): Str() if _m == "_parse_salt" else Int()},
+        ensures=[("silent repair (relaxed) only for config strings without a digest; a full hash with an out-of-range field is refused",
+                  lambda it, env, _h=_helper: it.cmp_vals("==", it.run.ghost[_h], it.identity(env.lookup("self").fields["checksum"], None)))],
+        canary=False,
+        descr="sha256_crypt / sha512_crypt: altered salt / rounds field of a stored hash",
+    ))
+
 BOUNDED = [Bounded("c08", "harness/c08.py", descr="single-edit neighbours of valid hashes, arbitrary strings", timeout=900)]
 
 P = "passlib/handlers/"
 MUTANTS = [
+    ("sha2_crypt: over-long salt of a full hash silently truncated", P + "sha2_crypt.py", "        return self._norm_salt(salt, relaxed=self.checksum is None)", "        return self._norm_salt(salt, relaxed=not self.use_defaults)", "refute", "_SHA2_Common._parse"),
     ("phpass: guard for empty payload removed", P + "phpass.py", "        if not data:\n            raise uh.exc.MalformedHashError(cls, \"missing rounds\")\n", "", "refute", "^phpass"),
     ("bcrypt.needs_update: length guard removed", P + "bcrypt.py", "            and len(hash) > 28\n", "", "refute", "^_BcryptCommon"),
     ("scrypt: parameter names checked by assert", P + "scrypt.py", "            if not (\n                nstr.startswith(\"ln=\")\n                and bstr.startswith(\"r=\")\n                and pstr.startswith(\"p=\")\n            ):\n                raise uh.exc.MalformedHashError(cls, \"malformed settings field\")\n", "            assert nstr.startswith(\"ln=\")\n", "undecided", "^scrypt"),
